@@ -15,6 +15,7 @@ import Manticore.Lemmas.SmbLoopsMirror
 import Manticore.Lemmas.SmbStd
 import Manticore.Lemmas.SmbLocality
 import Manticore.Lemmas.SmbHead
+import Manticore.Props.C04.Direct
 namespace Manticore.C04
 open Manticore Manticore.SmbIR Manticore.Gen.SmbCommands
 
@@ -228,7 +229,9 @@ theorem loop_mirror_commands :
 /-- `MirrorLoops` extends `Mirror`: each of the 96 `Mirror` commands satisfies it -/
 theorem mirror_loops_extends : commands.all (fun c => !Mirror c || MirrorLoops c) = true := by decide +kernel
 
-/-- **What is still outside**: exactly these 5 commands satisfy neither predicate.  Two carry the recorded structural finding (`known_roundtrip_findings`:
+/-- **What is still outside the fragment predicates**: exactly these 5 commands satisfy neither; NegotiateRequest has its own
+    theorem with the same statement (`negotiate_request_roundtrip`, Props/C04/Direct.lean), WriteRequest is proved never to
+    decode (`write_request_never_decodes`), so only NegotiateResponse rests on the correspondence runs alone.  Two carry the recorded structural finding (`known_roundtrip_findings`:
     a 43-byte window for 53-byte entries); NegotiateRequest decodes `Dialects`, which reads to the end of its input
     and is not among the lawful nested types; NegotiateResponse writes and reads two null-terminated strings
     (literal terminator bytes, `rawDataContent` re-sliced); WriteRequest puts its buffer ahead of the parameter block
